@@ -1,4 +1,4 @@
-From SV Require Import Model.Common Model.System Model.SystemAccept Model.SystemConnEnd.
+From SV Require Import Model.Common Model.System Model.SystemAccept Model.SystemConnEnd Model.SystemQuota Model.C01Case.
 From Coq Require Import ExtrOcamlBasic.
 Definition run_line_model := run_line run_case_C01.
 Extraction "model.ml" run_line_model.
